@@ -35,8 +35,9 @@ def hist_operand():
                         (2, st.just({'k': 'self'})))
 
 
-def history(cfg, min_steps=3, max_steps=12, op_names=None, extra_ops=None):
-    init = st.lists(gen.prog(cfg, depth=0, max_ops=2), min_size=2, max_size=3)
+def history(cfg, min_steps=3, max_steps=12, op_names=None, extra_ops=None, huge=False):
+    one = gen.prog(cfg, depth=0, max_ops=2) if not huge else gen.weighted((60, gen.prog(cfg, depth=0, max_ops=2)), (1, gen.prog_huge(cfg)))
+    init = st.lists(one, min_size=2, max_size=3)
     base = gen.op(cfg, 0, names=op_names or HIST_OPS, opnd=hist_operand())
     ops = base if extra_ops is None else gen.weighted((4, base), (1, extra_ops))
     step = st.tuples(st.integers(0, 9), ops).map(lambda x: dict(x[1], r=x[0]))
@@ -62,7 +63,8 @@ def is_inplace(v, op):
 
 
 class Machine:
-    def __init__(self, case):
+    def __init__(self, case, max_len=MAX_LEN):
+        self.max_len = max_len
         self.regs = []
         ip = Interp()
         for p in case['init']:
@@ -93,7 +95,7 @@ class Machine:
         return out
 
     def store(self, v, step_no):
-        if len(v) > MAX_LEN:
+        if len(v) > self.max_len:
             return None
         if len(self.regs) < MAX_REGS:
             self.regs.append(v)
